@@ -194,6 +194,7 @@ def history_work(payload):
 
 
 def run(tier, seed, only=None):
+    pool.set_recycle(12)
     rep = Report(
         PID, tier, seed, "exploration",
         rule="histories of fits on one ConfigLoader session (spin-0 three-body model, 40 weighted data / 128 phase-space events): all single fits over minimiser names %s x "
